@@ -104,7 +104,7 @@ def _model_g1(v=3):
 
 
 def _model_scalar(v=7):
-    return [0] * 31 + [v]
+    return [0] * 30 + [1, v]
 
 
 def _fmt(v):
